@@ -3,6 +3,7 @@
 package drv
 
 import (
+	"io"
 	"bytes"
 	"errors"
 	"fmt"
@@ -178,6 +179,27 @@ func (e *Env) CallWire(cl Client, msg []byte) ([]byte, error) {
 		return nil, fmt.Errorf("DecodeRPCCall: %w", err)
 	}
 	body := bytes.NewReader(msg[len(msg)-rd.Len():])
+	ctx := &absnfs.AuthContext{ClientIP: cl.IP, ClientPort: cl.Port, Credential: &call.Credential}
+	reply, err := e.H.HandleCall(call, body, ctx)
+	if err != nil {
+		return nil, ErrTimeout
+	}
+	var buf bytes.Buffer
+	if err := absnfs.EncodeRPCReply(&buf, reply); err != nil {
+		return nil, fmt.Errorf("EncodeRPCReply: %w", err)
+	}
+	return buf.Bytes(), nil
+}
+
+// CallWireBody is the direct variant of CallWire with the argument reader wrapped by wrap (a reader that blocks,
+// say: the request is then pinned inside its handler, after admission and before it has decoded its arguments).
+func (e *Env) CallWireBody(cl Client, msg []byte, wrap func(io.Reader) io.Reader) ([]byte, error) {
+	rd := bytes.NewReader(msg)
+	call, err := absnfs.DecodeRPCCall(rd)
+	if err != nil {
+		return nil, fmt.Errorf("DecodeRPCCall: %w", err)
+	}
+	body := wrap(bytes.NewReader(msg[len(msg)-rd.Len():]))
 	ctx := &absnfs.AuthContext{ClientIP: cl.IP, ClientPort: cl.Port, Credential: &call.Credential}
 	reply, err := e.H.HandleCall(call, body, ctx)
 	if err != nil {
